@@ -118,6 +118,8 @@ def search(facts):
             sup = funcs.get("Supported", {})
             if sup.get("file") == "seccomp_unsupported.go" and sup.get("ret") != "false":
                 add("stub", "stub Supported returns", sup.get("body"), "{ return false }", name)
+            if t.get("stub_imports"):
+                add("stub", "seccomp_unsupported.go imports", ", ".join(t["stub_imports"]), "no imports", name)
             if t.get("stub_other_decls"):
                 add("stub", "seccomp_unsupported.go declares more than the three stubs", ", ".join(t["stub_other_decls"]), "nothing else", name)
         row = t.get("goarch_row", {})
